@@ -11,8 +11,11 @@
   3. `pending_eq_groups` without the ad-hoc `sameGroup t t` assumption: the parser's range check makes accepted times finite
      (`accepted_time_inRange`), and finite times are in their own group under `FiniteSelfGroup` — which follows from
      `ExactScalar φ` with `0 < φ eps` (`finiteSelfGroup_of_exact`; instance ℝ; also the toy `Z`).
+  4. `lists_strictly_sorted_time`: "every list is strictly increasing in TIME" (and one point per time), from C13's
+     `TimeKeyOn S` (Props/C13Exact.lean) for the set `S` of accepted times — the ±0 / F8 caveat made precise.
 -/
 import RosuModel.Props.C12
+import RosuModel.Props.C13Exact
 import RosuModel.Lemmas.ToyNaN
 import RosuModel.Lemmas.ExactArith
 import RosuModel.Lemmas.RealScalar
@@ -302,6 +305,35 @@ theorem pending_eq_groups_exact [Scalar P] (E : ExactScalar φ) (heps : 0 < φ (
 
 end Exact
 
+/-! ## 4b. strictly increasing in TIME (C13's `TimeKeyOn`) -/
+
+section TimeSorted
+variable [Scalar P] {S : F → Prop}
+
+/-- "the time of the point lies in `S`", per kind. -/
+def timePred (S : F → Prop) : PointPred F :=
+  { t := fun p => S p.time, d := fun p => S p.time, e := fun p => S p.time, s := fun p => S p.time }
+
+/-- **lists_strictly_sorted, in times**: when the key order is the time order on a set `S` containing the times of the accepted
+lines (`C13.TimeKeyOn S`; for IEEE: no NaN — guaranteed by the parser — and not both `+0.0` and `−0.0`), decoding any lines from
+the fresh state gives four lists that are strictly increasing in TIME with at most one point per time. So F8 (both zeros among
+the accepted times) is the only way this clause of the property fails. -/
+theorem lists_strictly_sorted_time (T : C13.TimeKeyOn S) (strs : List Str)
+    (hS : ∀ l ∈ acceptedLines (TimingPointsState.create : TimingPointsState F P).general strs, S l.time) :
+    C13.TimeSorted (runStrs (TimingPointsState.create : TimingPointsState F P) strs).finish.2 ∧
+    C13.OnePerTime (runStrs (TimingPointsState.create : TimingPointsState F P) strs).finish.2 := by
+  have hinv : Inv (timePred S) (TimingPointsState.create : TimingPointsState F P) := inv_create _
+  have hfin := inv_finish (inv_runTpLines hinv (acceptedLines _ strs) (fun l hl => by
+    refine ⟨fun _ => hS l hl, hS l hl, ?_, hS l hl⟩
+    show S (l.effectPoint _).time
+    rw [effectPoint_time]; exact hS l hl))
+  rw [← runStrs_eq_runTpLines] at hfin
+  have hr : C13.Reach S (runStrs (TimingPointsState.create : TimingPointsState F P) strs).finish.2 :=
+    ⟨hfin.1, ⟨hfin.2.t, hfin.2.d, hfin.2.e, hfin.2.s⟩⟩
+  exact ⟨C13.times_strictly_sorted T hr, C13.one_point_per_time T hr⟩
+
+end TimeSorted
+
 /-! ## 5. the hypotheses are satisfiable -/
 
 section Examples
@@ -386,6 +418,10 @@ example :
     cp.timingPoints.length = 0 ∧ cp.difficultyPoints = [⟨ZN.num 10, ZN.num 1, false⟩] := by decide +kernel
 
 example (strs : List Str) := stored_not_nan (P := ZN) nanLaws_zn clampLaws_zn strs
+
+/-- `lists_strictly_sorted_time` on the toy `Z` (`C13.timeKeyOn_z`): the example lines of Props/C12.lean. -/
+example (strs : List Str) :=
+  lists_strictly_sorted_time (F := Z) (P := Z) C13.timeKeyOn_z strs (fun _ _ => trivial)
 
 /-- `FiniteSelfGroup` on the toy `Z` (ε = 1) … -/
 example : FiniteSelfGroup Z := fun t _ => z_sameGroup_refl t
